@@ -2,7 +2,7 @@
    A run is any sequence of (op, v): 1 try_put(v) | 2 try_get | 3 try_reserve | 4 try_release | 5 try_consume with v >= 0;
    h_acc = accepted puts in order, h_del = items handed out by try_get or try_consume, in order. *)
 From Coq Require Import Sorting.Permutation.
-From OTV Require Import Lib.Tac BufModel BufProofs.
+From OTV Require Import Lib.Tac BufModel BufProofs JoinModel JoinProofs.
 Local Open Scope Z_scope.
 
 (* queue_node: at every moment  delivered ++ still-buffered = accepted puts, in order: items leave in arrival order,
@@ -59,4 +59,37 @@ Qed.
 Print Assumptions limiter_never_exceeds_threshold.
 
 Example limiter_example : run_lim [3; 1;0; 2;0; 1;0; 4;5; 2;0] = [1;0;1;0; 1;1;0;0; 1;1;1;0; 1;0;1;2; 1;0;0;1].
+Proof. vm_compute. reflexivity. Qed.
+
+
+(* ------------------------------------------------------------------------------------------------------------------
+   join_node, queueing policy (JoinModel).  For EVERY number of ports >= 1 and EVERY sequence of operations - puts on any port,
+   the successor accepting / rejecting / pulling with try_get / registering again, forward tasks running at any moment:
+   the i-th tuple consists of the i-th message of every port and nothing is lost or used twice (everything put on port p =
+   the p-th components of the delivered tuples, in order, followed by what port p still buffers); ports_with_no_items is the
+   number of empty ports. *)
+Theorem join_queueing_ith_with_ith : forall np ops, (0 < np)%nat ->
+  let n := jrun (jinit np) ops in
+  (forall p, (p < length (j_qs n))%nat -> getq (j_puts n) p = proj p (j_out n) ++ getq (j_qs n) p) /\
+  j_pwni n = Z.of_nat (count_empty (j_qs n)).
+Proof.
+  intros np ops H n. destruct (jrun_J ops _ (jinit_J np H)) as [(_ & _ & H3 & H4 & _) _]. split; auto.
+Qed.
+Print Assumptions join_queueing_ith_with_ith.
+
+(* A complete tuple is never stranded: when no forward task is pending and the successor is registered (it has not rejected),
+   some port is empty - every complete tuple was delivered, or the successor refused it and has to pull or register again. *)
+Theorem join_complete_tuple_not_stranded : forall np ops, (0 < np)%nat ->
+  let n := jrun (jinit np) ops in
+  j_fwd n = 0 -> j_push n = true -> exists p, (p < length (j_qs n))%nat /\ getq (j_qs n) p = [].
+Proof.
+  intros np ops H n Hf Hp. destruct (jrun_J ops _ (jinit_J np H)) as [(_ & _ & H3 & _) Hs]. fold n in H3, Hs.
+  apply count_empty_pos. destruct (count_empty (j_qs n)); [|lia]. specialize (Hs H3 Hp). lia.
+Qed.
+Print Assumptions join_complete_tuple_not_stranded.
+
+(* non-vacuity: this input and output were produced by the real join_node<tuple<long,long>, queueing> (driver mode joinseq) *)
+Example join_example :
+  run_join [2; 1;0;1001; 1;1;2001; 3;0;0; 1;0;1002; 1;1;2002; 1;0;1003; 4;0;0; 6;0;0; 2;0;0; 1;1;2003; 6;0;0] =
+  [1; 1; 0; 1; 0; 1; 0; 1; 2; 0; 1; 1; 0; 0; 1; 2; 0; 1; 1; 0; 0; 1; 1; 0; 1; 1; 1; 0; 1; 0; 0; 0; 1; 1; 1; 1; 0; 0; 0; 1; 2; 1; 1; 1; 0; 0; 2; 1; 0; 1; 1; 0; 1; 2; 1; 0; 1; 1; 0; 1; 2; 1; 0; 1; 2; 0; 1; 3; 0; 0; 1; 2; 0; 1; 3; 0; 0; -7; 1001; 2001; 1002; 2002; 1003; 2003].
 Proof. vm_compute. reflexivity. Qed.
